@@ -106,6 +106,7 @@ class Repo:
         if not os.path.isdir(self.pkg):
             raise AnalysisError(f"package directory {self.pkg} not found")
         self.modules: dict[str, Module] = {}
+        self.normalised: dict = {}  # constants substituted / helpers inlined / guard clauses put back (bsa/normalize.py)
         self.reshaped = 0  # if/else polarity and comparison operand order put back into the recorded form (bsa/alpha.py)
         self.renamed: list = []  # (function, {current local name: name used by the rules}) - see bsa/alpha.py
         self.funcs: dict[str, Func] = {}
@@ -133,7 +134,13 @@ class Repo:
                 except SyntaxError as e:
                     raise AnalysisError(f"cannot parse {path}: {e}") from e
                 strip_inert(tree)
-                from . import alpha
+                from . import alpha, normalize
+
+                st = normalize.normalise_module(tree, name)
+                for k, v in st.items():
+                    self.normalised[k] = self.normalised.get(k, 0) + v
+                if any(st.values()):
+                    strip_inert(tree)
 
                 self.renamed.extend(alpha.normalise(tree, name))
                 self.reshaped += alpha.canonicalise_shapes(tree, name)
@@ -227,4 +234,5 @@ class Repo:
             "classes_indexed": len(self.classes),
             "locals_renamed_back": {k: m for k, m in self.renamed},
             "shapes_put_back": self.reshaped,
+            "refactors_undone": dict(self.normalised),
         }
